@@ -105,7 +105,7 @@ def par_job(job):
         keys_for[n] = sorted({e['w'] for e in evs if e['w'] not in ('', 'main')})
         considers[n] = {k: sum(1 for e in evs if e['ev'] == 'consider' and e['w'] == k) for k in keys_for[n]}
     scripts = []
-    if nsched and (nsched > 6 or sseed % 3 == 0):       # quick tier: every third scenario
+    if nsched and sseed % (4 if nsched > 6 else 3) == 0:       # quick tier: every third scenario, thorough: every fourth (of ten times as many)
         # every interleaving of the apply phase at file-patch granularity: all merges of the workers' consider points
         # (a worker that stops early simply leaves its later turns unused), each followed by alternation for the save phase
         for n in (2, 3):
